@@ -7,6 +7,7 @@
 package wire
 
 import (
+	"sync/atomic"
 	"bytes"
 	"encoding/json"
 	"fmt"
@@ -342,6 +343,9 @@ func Run(c *core.Ctx) {
 	}
 	// (5) envelopes of real responses
 	recs = append(recs, envelopes(c, rng)...)
+	for i := 0; i < c.Pick(6, 40); i++ {
+		recs = append(recs, queryEnvelopes(i)...)
+	}
 	core.CheckRecords(c, "TraceWire", "TraceWire.cfg", recs, nil, func(i int, r interface{}, inv string) {
 		m := r.(rec)
 		c.Violate(core.Violation{Signature: map[string]string{"engine": "wire", "kind": fmt.Sprint(m["op"])},
@@ -368,6 +372,106 @@ func trim(m rec) rec {
 }
 
 // envelopes serves a few outcomes on a real service and parses the published responses with resprot.
+// queryEnvelopes: responses to query requests (event lists). Two requests on the query event of one
+// resource whose callbacks are inside at the same time (a Parallel handler; for an ordinary handler the
+// group serialises them): each response decodes to the events its own callback added.
+func queryEnvelopes(round int) []interface{} {
+	s := res.NewService("test")
+	s.SetLogger(nil)
+	s.SetWorkerCount(4)
+	s.SetQueryEventDuration(300 * time.Millisecond)
+	s.Handle("pq", res.Parallel(true), res.GetCollection(func(r res.CollectionRequest) { r.Collection([]int{}) }))
+	s.Handle("nq", res.GetCollection(func(r res.CollectionRequest) { r.Collection([]int{}) }))
+	conn := rconn.New(nil)
+	done := make(chan error, 1)
+	served := make(chan struct{})
+	s.SetOnServe(func(*res.Service) { close(served) })
+	go func() { done <- s.Serve(conn) }()
+	select {
+	case <-served:
+	case <-time.After(3 * time.Second):
+		return nil
+	}
+	defer func() { s.Shutdown(); <-done }()
+	var recs []interface{}
+	for _, name := range []string{"pq", "nq"} {
+		var inside int32
+		started := make(chan struct{})
+		if s.With("test."+name, func(r res.Resource) {
+			r.QueryEvent(func(qr res.QueryRequest) {
+				if qr == nil {
+					return
+				}
+				id := strings.TrimPrefix(qr.Query(), "id=")
+				n := 1 + len(id)%2
+				for k := 0; k < n; k++ {
+					qr.(interface{ AddEvent(interface{}, int) }).AddEvent(id+fmt.Sprint(k), k)
+				}
+				// stay inside until the other request's callback has added its events too (or for a while)
+				atomic.AddInt32(&inside, 1)
+				for t := 0; t < 40 && atomic.LoadInt32(&inside) < 2; t++ {
+					time.Sleep(500 * time.Microsecond)
+				}
+			})
+			close(started)
+		}) != nil {
+			continue
+		}
+		<-started
+		subj := ""
+		for _, m := range conn.PubsOn("event.test." + name + ".query") {
+			var p struct {
+				Subject string `json:"subject"`
+			}
+			json.Unmarshal(m.Data, &p)
+			subj = p.Subject
+		}
+		if round%2 == 1 {
+			// a first request alone, before the two that overlap
+			conn.Deliver(subj, fmt.Sprintf("inbox.q%s0", name), []byte(`{"query":"id=z"}`))
+			for t := 0; t < 2000 && len(conn.PubsOn(fmt.Sprintf("inbox.q%s0", name))) == 0; t++ {
+				time.Sleep(time.Millisecond)
+			}
+			time.Sleep(time.Millisecond)
+			atomic.StoreInt32(&inside, 0)
+		}
+		ids := []string{"a", "bb"}
+		for _, id := range ids {
+			conn.Deliver(subj, "inbox.q"+name+id, []byte(`{"query":"id=`+id+`"}`))
+		}
+		for t := 0; t < 2000; t++ {
+			if len(conn.PubsOn("inbox.q"+name+ids[0])) > 0 && len(conn.PubsOn("inbox.q"+name+ids[1])) > 0 {
+				break
+			}
+			time.Sleep(time.Millisecond)
+		}
+		time.Sleep(2 * time.Millisecond)
+		for _, id := range ids {
+			ms := conn.PubsOn("inbox.q" + name + id)
+			if len(ms) != 1 {
+				recs = append(recs, rec{"op": "envelope", "classes": len(ms), "cls": "", "expect": "result", "decoded": false, "dbg": fmt.Sprintf("query request %s on test.%s got %d responses", id, name, len(ms))})
+				continue
+			}
+			resp := resprot.ParseResponse(ms[0].Data)
+			var qres resprot.QueryResult
+			ok := resp.HasResult() && !resp.HasError() && !resp.HasResource() && resp.ParseResult(&qres) == nil
+			n := 1 + len(id)%2
+			if ok && len(qres.Events) == n {
+				for k, e := range qres.Events {
+					d, _ := e.Data.(map[string]interface{})
+					if e.Event != "add" || d == nil || d["value"] != id+fmt.Sprint(k) || d["idx"] != float64(k) {
+						ok = false
+					}
+				}
+			} else {
+				ok = false
+			}
+			recs = append(recs, rec{"op": "envelope", "classes": 1, "cls": "result", "expect": "result", "decoded": ok, "dbg": fmt.Sprintf("query response on test.%s for request %s (two callbacks inside together where the handler allows it): %s", name, id, ms[0].Data)})
+		}
+	}
+	return recs
+}
+
 func envelopes(c *core.Ctx, rng *rand.Rand) []interface{} {
 	type outcome struct {
 		name   string
